@@ -487,7 +487,7 @@ def _job(spec):
                 ev.call(ev.getattr(out, "dump_tar", None), [VPath(fs, "/results/out.zip")], {})
                 problems.append("dump_tar accepts a path without the .tar suffix")
             except S.Raised as r:
-                if r.etype != "ValueError":
+                if not S.raised_is(r, "ValueError"):
                     problems.append(f"wrong suffix ends in {r.etype}")
             if not problems:
                 # repeated cycles may alternate formats: the object loaded from tar goes through YAML
